@@ -203,14 +203,16 @@ Inductive ekind := KTrx | KRoadm | KFused | KFiber | KRaman | KEdfa | KMulti.
    Fiber.propagate (l.1116-1138): att_in, add_nli, fibre loss, con_out;
    RamanFiber.propagate (l.1216-1243): att_in, add_nli, add_ase, fibre loss (net of Raman gain), con_out;
    Edfa.propagate (l.1677-1684): optional in_voa, add_ase, gain (net of out_voa);
-   Multiband_amplifier: each channel goes through the Edfa of its band *)
+   Multiband_amplifier: each channel goes through the Edfa of its band (the amplifier of a band in which the
+   spectrum has no channel is not run at all: its list of updates is empty) *)
 Definition prog_kinds_okb (k : ekind) (l : list okind) : bool :=
   match k with
   | KTrx => kinds_eqb l []
   | KRoadm | KFused => forallb (okind_eqb OAtt) l
   | KFiber => kinds_eqb l [OAtt; ONli; OAtt; OAtt]
   | KRaman => kinds_eqb l [OAtt; ONli; OAse; OAtt; OAtt]
-  | KEdfa | KMulti => kinds_eqb l [OAse; OGain] || kinds_eqb l [OAtt; OAse; OGain]
+  | KEdfa => kinds_eqb l [OAse; OGain] || kinds_eqb l [OAtt; OAse; OGain]
+  | KMulti => kinds_eqb l [] || kinds_eqb l [OAse; OGain] || kinds_eqb l [OAtt; OAse; OGain]
   end.
 Definition cprog_okb (k : ekind) (ops : list cop) : bool := prog_kinds_okb k (map ckind_of ops).
 
@@ -247,7 +249,7 @@ Definition sprog_okb (k : ekind) (ops : list sop) : bool := prog_kinds_okb k (ma
 Definition eprog_okb (k : ekind) (e : eprog) : bool :=
   match k, e with
   | KEdfa, PEdfa _ _ ops => sprog_okb KEdfa ops
-  | KMulti, PMulti amps => forallb (fun x => sprog_okb KEdfa (snd x)) amps
+  | KMulti, PMulti amps => forallb (fun x => sprog_okb KMulti (snd x)) amps
   | KEdfa, _ | KMulti, _ => false
   | _, PFlat ops => sprog_okb k ops
   | _, _ => false
